@@ -6,6 +6,16 @@ use std::collections::VecDeque;
 use std::sync::atomic::{AtomicU8, Ordering};
 use std::time::{Duration, Instant};
 
+/// Clock behind the breaker's own logic (age of the current state, time-based window,
+/// call durations). Event timestamps keep using `Instant::now()` directly.
+#[cfg(not(feature = "verif-hooks"))]
+#[inline]
+pub(crate) fn clock_now() -> Instant {
+    Instant::now()
+}
+#[cfg(feature = "verif-hooks")]
+pub(crate) use tower_resilience_core::verif::clock::now as clock_now;
+
 /// Represents the state of the circuit breaker.
 #[derive(Debug, Clone, Copy, PartialEq, Eq)]
 #[cfg_attr(feature = "serde", derive(serde::Serialize, serde::Deserialize))]
@@ -95,7 +105,7 @@ impl Circuit {
         Self {
             state: CircuitState::Closed,
             state_atomic,
-            last_state_change: std::time::Instant::now(),
+            last_state_change: clock_now(),
             failure_count: 0,
             success_count: 0,
             total_count: 0,
@@ -144,13 +154,13 @@ impl Circuit {
             slow_call_count,
             failure_rate,
             slow_call_rate,
-            time_since_state_change: self.last_state_change.elapsed(),
+            time_since_state_change: clock_now().duration_since(self.last_state_change),
         }
     }
 
     /// Clean up old records from the time-based window.
     fn cleanup_old_records(&mut self, window_duration: Duration) {
-        let now = Instant::now();
+        let now = clock_now();
         while let Some(record) = self.call_records.front() {
             if now.duration_since(record.timestamp) > window_duration {
                 self.call_records.pop_front();
@@ -205,7 +215,7 @@ impl Circuit {
                 if let Some(window_duration) = config.sliding_window_duration {
                     self.cleanup_old_records(window_duration);
                     self.call_records.push_back(CallRecord {
-                        timestamp: Instant::now(),
+                        timestamp: clock_now(),
                         is_failure: false,
                         is_slow,
                     });
@@ -284,7 +294,7 @@ impl Circuit {
                 if let Some(window_duration) = config.sliding_window_duration {
                     self.cleanup_old_records(window_duration);
                     self.call_records.push_back(CallRecord {
-                        timestamp: Instant::now(),
+                        timestamp: clock_now(),
                         is_failure: true,
                         is_slow,
                     });
@@ -347,7 +357,7 @@ impl Circuit {
                 true
             }
             CircuitState::Open => {
-                if self.last_state_change.elapsed() >= config.wait_duration_in_open {
+                if clock_now().duration_since(self.last_state_change) >= config.wait_duration_in_open {
                     self.transition_to(CircuitState::HalfOpen, config);
                     config
                         .event_listeners
@@ -451,7 +461,7 @@ impl Circuit {
 
         self.state = state;
         self.state_atomic.store(state as u8, Ordering::Release);
-        self.last_state_change = std::time::Instant::now();
+        self.last_state_change = clock_now();
         self.success_count = 0;
         self.failure_count = 0;
         self.total_count = 0;
